@@ -272,7 +272,7 @@ func (s *String) GetItem(key Object) (Object, *Error) {
 	runes := []rune(s.value)
 	index, err := ResolveIndex(indexObj.value, int64(len(runes)))
 	if err != nil {
-		return nil, Errorf(err.Error())
+		return nil, NewError(err)
 	}
 	return NewString(string(runes[index])), nil
 }
@@ -281,7 +281,7 @@ func (s *String) GetSlice(slice Slice) (Object, *Error) {
 	runes := []rune(s.value)
 	start, stop, err := ResolveIntSlice(slice, int64(len(runes)))
 	if err != nil {
-		return nil, Errorf(err.Error())
+		return nil, NewError(err)
 	}
 	resultRunes := runes[start:stop]
 	return NewString(string(resultRunes)), nil
